@@ -317,6 +317,11 @@ def gen_cases(ctx, Gf):
         mk = rng.choice(["equal", "random", "dyadic"])
         w = None if mk == "equal" else (random_masses(rng, n) if mk == "random" else dyadic_masses(rng, n, 12))
         family("random", lo, hi, w)
+    # 3a. more focal elements than typical chunk sizes (1024), not a multiple of them
+    for nbig in ([1025, 1500] if ctx.tier != "thorough" else [1025, 1500, 2500, 4097]):
+        sc = 10 ** rng.uniform(-1, 3)
+        lo, hi = layout(rng, nbig, rng.choice(["overlapping", "nested", "repeated"]), lambda: round(rng.uniform(-1, 1) * sc, 3))
+        add("random-big", lo, hi, rng.choice([None, random_masses(rng, nbig)]), None, "base")
     # 3b. a single focal element (the whole mass on one interval)
     for _ in range(ctx.scale(6, 60)):
         a, b = sorted((ints(), ints()))
@@ -442,6 +447,16 @@ def variants(lo, hi, w, rng):
     V.append(("stacking:2d-array", stacking, (np.array(pairs),), {"weights": list(wl)}))
     V.append(("stacking:2d-float-array", stacking, (np.array(pairs, dtype=float),), {"weights": np.array(wl)}))
     V.append(("stacking:vec-Interval", stacking, (I(np.array([a for a, _ in pairs]), np.array([b for _, b in pairs])),), {"weights": tuple(wl)}))
+    i0 = I(pairs[0][0], pairs[0][1])     # the SAME Interval object listed twice, sharing the mass of the first focal element
+    wa = [wl[0] / 2, wl[0] / 2] + wl[1:]
+    V.append(("stacking:same-object-twice", stacking, ([i0, i0] + [I(a, b) for a, b in pairs[1:]],), {"weights": wa},
+              ([lo[0]] + list(lo), [hi[0]] + list(hi), wa)))
+    wb = [wl[0] / 4] + wl[1:] + [wl[0] * 0.75]
+    V.append(("mixture:same-object-twice", mixture, tuple([i0] + [I(a, b) for a, b in pairs[1:]] + [i0]), {"weights": wb},
+              (list(lo) + [lo[0]], list(hi) + [hi[0]], wb)))
+    if ints and min(lo) >= 0:
+        V.append(("stacking:2d-uint-array", stacking, (np.array([[int(a), int(b)] for a, b in pairs], dtype=np.uint16),), {"weights": list(wl)}))
+        V.append(("dss:vec-Interval-uint", dss, (I(np.array([int(a) for a, _ in pairs], dtype=np.uint64), np.array([int(b) for _, b in pairs], dtype=np.uint64)), list(wl)), {}))
     V.append(("pba.stacking", pba.stacking, ([[a, b] for a, b in pairs],), {"weights": list(wl)}))
     V.append(("mixture:lists", mixture, tuple([a, b] for a, b in pairs), {"weights": list(wl)}))
     V.append(("mixture:Intervals", mixture, tuple(I(a, b) for a, b in pairs), {"weights": np.array(wl)}))
@@ -536,8 +551,9 @@ def run_repr_stream(ctx, G, Gf):
         em = exact_masses(n, w)
         St = sum(em)
         masses = [m / St for m in em]
-        ok_lo, amb_lo, _, _ = cmp_check(G, lo, w)
-        ok_hi, amb_hi, _, _ = cmp_check(G, hi, w)
+        ok_lo, amb_lo0, _, _ = cmp_check(G, lo, w)
+        ok_hi, amb_hi0, _, _ = cmp_check(G, hi, w)
+        amb_lo, amb_hi = amb_lo0, amb_hi0
         exp_l = [float(v) for v in geninv(lo, masses, G)[0]]
         exp_r = [float(v) for v in geninv(hi, masses, G)[0]]
         model = parse_model(rep)
@@ -546,7 +562,11 @@ def run_repr_stream(ctx, G, Gf):
         if as_int:
             ctx.bump("representations:int-operands")
         first_obj = None
-        for name, fn, args, kwargs in V:
+        for name, fn, args, kwargs, *alt in V:
+            amb_lo, amb_hi = amb_lo0, amb_hi0
+            if alt:                                   # a split structure: its own running sums decide what is strict
+                amb_lo = amb_lo0 | cmp_check(G, alt[0][0], alt[0][2])[1]
+                amb_hi = amb_hi0 | cmp_check(G, alt[0][1], alt[0][2])[1]
             snap = canon_op([args, kwargs])
             obj, impl = call_variant(fn, args, kwargs)
             ctx.bump("variant-calls")
